@@ -469,7 +469,7 @@ def _gen_request(cs, templates, kind=None, allow_slow=False, fail=None, neighbou
     if family is UNITS_FAMILY and t['kind'] != 'hip':
         if 'unit_tweaks' not in _state:
             _state['unit_tweaks'] = [tw_ for tw_ in HW.GEO_TWEAKS if tw_[0].startswith('Units:') or tw_[0] == 'Starting Heat Sale Price'
-                                     or any(re.match(r'^-?[\d.]+(e[-+]?\d+)?\s+[A-Za-z]', str(v_)) for v_ in tw_[1])]
+                                     or any(re.match(r'^-?[\d.]+(e[-+]?\d+)?[ \t]+[A-Za-z]', str(v_)) for v_ in tw_[1])]
         ut = _state['unit_tweaks']
         for _ in range(1 + cs.choose(2, 'nunit')):
             a = cs.choose(len(ut), 'unittweak')
